@@ -388,6 +388,18 @@ mut("C12", "undo-D16", TR,
     "			cs.readAborted = true\n			cs.abortStreamLocked(StreamError{\n				StreamID: f.StreamID,\n				Code:     ErrCodeFlowControl,\n			})", "			rl.endStreamError(cs, StreamError{\n				StreamID: f.StreamID,\n				Code:     ErrCodeFlowControl,\n			})")
 mut("C12", "transport-abort-after-flow-grant-leaks-conn-window", TR,
     "			cc.wmu.Lock()\n			data := remain[:allowed]\n", "			cc.wmu.Lock()\n			select {\n			case <-cs.abort:\n				cc.wmu.Unlock()\n				return cs.abortErr\n			default:\n			}\n			data := remain[:allowed]\n")
+# family parked: the stream's windows are set up before the wait for a MAX_CONCURRENT_STREAMS slot (which releases cc.mu),
+# so a SETTINGS_INITIAL_WINDOW_SIZE change during the wait does not reach the stream (seeded/C12-G)
+mut("C12", "transport-stream-window-initialised-before-waiting-for-a-slot", TR,
+    "	cc.decrStreamReservationsLocked()\n	if err := cc.awaitOpenSlotForStreamLocked(cs); err != nil {",
+    "	cc.decrStreamReservationsLocked()\n	cs.flow.add(int32(cc.initialWindowSize))\n	cs.flow.setConnFlow(&cc.flow)\n	cs.inflow.init(cc.initialStreamRecvWindowSize)\n	if err := cc.awaitOpenSlotForStreamLocked(cs); err != nil {")
+mut("C12", "transport-stream-window-initialised-before-waiting-for-a-slot", TR,
+    "func (cc *ClientConn) addStreamLocked(cs *clientStream) {\n	cs.flow.add(int32(cc.initialWindowSize))\n	cs.flow.setConnFlow(&cc.flow)\n	cs.inflow.init(cc.initialStreamRecvWindowSize)\n",
+    "func (cc *ClientConn) addStreamLocked(cs *clientStream) {\n")
+# family goaway: the discard-after-GOAWAY filter also drops the frames of the last accepted stream (seeded/C12-H)
+mut("C12", "server-drops-frames-of-the-last-stream-after-graceful-goaway", SV,
+    "	if sc.inGoAway && (sc.goAwayCode != ErrCodeNo || f.Header().StreamID > sc.maxClientStreamID) {",
+    "	if sc.inGoAway && (sc.goAwayCode != ErrCodeNo || f.Header().StreamID >= sc.maxClientStreamID) {")
 
 # ---- C06
 mut("C06", "metadata-from-context-returns-latest", "pkg/metadata/context.go",
